@@ -255,6 +255,14 @@ func AllExtractOf(v ssa.Value, idx int) ssa.CallInstruction {
 // Recognised: v == nil, v != nil, len(v) == 0, len(v) != 0, len(v) > 0, 0 < len(v) ...
 func EmptinessFact(f Fact, same func(ssa.Value) bool) (empty, ok bool) {
 	x, y := f.X, f.Y
+	// `_, ok := v.(T)` with ok true: v holds a T, so v is not nil (the false edge says nothing about nil-ness)
+	if f.Op == token.ILLEGAL && !f.Neg && x != nil {
+		if ex, isEx := x.(*ssa.Extract); isEx && ex.Index == 1 {
+			if ta, isTA := ex.Tuple.(*ssa.TypeAssert); isTA && ta.CommaOk && same(ta.X) {
+				return false, true
+			}
+		}
+	}
 	if f.Op == token.ILLEGAL || x == nil || y == nil {
 		return false, false
 	}
